@@ -371,15 +371,19 @@ static void list_units(const std::string& tier0)
             }
         }
     } else if (P=="c07") {
+        // quick:    depth 2 x 12 configurations (4 styles x 3 stale options, maximum size 1024) + depth 3 on the default configuration
+        // thorough: depth 2 x 72 configurations (x 3 maximum sizes x entry compression) + depth 3 x the 12 configurations
+        // (depth 3 x 72 configurations measured at ~110 CPU-hours; it is not offered)
         for (const char* pol : {"eao","eap"}) for (const char* k : {"S:MTb:F","S:MTi:Q","R:MTb:I"}) {
             const char* sh = k[0]=='R' ? "S3" : "S7";
-            // (thorough: entry compression is also enumerated for the relation kind only; with it on all three kinds the tier needed ~24 CPU-hours)
-            snprintf(b,sizeof b,"profile=c07,kind=%s,shape=%s,depth=%d,cat=%d,pol=%s,cfgs=%s,compress=%d", k, sh, th?3:2, (th && k[0]!='R')?4:5, pol, th?"ct36":"ct12", (th && k[0]=='R')?1:0); emit(b, th?64:8);
+            snprintf(b,sizeof b,"profile=c07,kind=%s,shape=%s,depth=2,cat=5,pol=%s,cfgs=%s,compress=%d", k, sh, pol, th?"ct36":"ct12", th?1:0); emit(b, 8);
             if (!th) { snprintf(b,sizeof b,"profile=c07,kind=%s,shape=%s,depth=3,cat=4,pol=%s,cfgs=default", k, sh, pol); emit(b, 8); }
+            else { snprintf(b,sizeof b,"profile=c07,kind=%s,shape=%s,depth=3,cat=4,pol=%s,cfgs=ct12,compress=0", k, sh, pol); emit(b, 64); }
         }
         // relation scenario: image / reachability / saturation operations (their own caches and cached relation split) under every CT configuration
-        for (const char* pol : {"eao","eap"}) { snprintf(b,sizeof b,"profile=c07,kind=S:MTb:F,shape=S4,depth=%d,cat=4,pol=%s,rel=I,cfgs=%s", th?3:2, pol, th?"ct36":"ct12"); emit(b, th?32:8);
-            if (!th) { snprintf(b,sizeof b,"profile=c07,kind=S:MTb:F,shape=S4,depth=3,cat=3,pol=%s,rel=I,cfgs=default", pol); emit(b, 8); } }
+        for (const char* pol : {"eao","eap"}) { snprintf(b,sizeof b,"profile=c07,kind=S:MTb:F,shape=S4,depth=2,cat=4,pol=%s,rel=I,cfgs=%s", pol, th?"ct36":"ct12"); emit(b, 8);
+            if (!th) { snprintf(b,sizeof b,"profile=c07,kind=S:MTb:F,shape=S4,depth=3,cat=3,pol=%s,rel=I,cfgs=default", pol); emit(b, 8); }
+            else { snprintf(b,sizeof b,"profile=c07,kind=S:MTb:F,shape=S4,depth=3,cat=3,pol=%s,rel=I,cfgs=ct12", pol); emit(b, 32); } }
     } else if (P=="c12") {
         for (const char* k : {"S:MTi:Q","R:MTb:I","S:EVpi:F","R:EVtr:F","S:MTb:F"}) {
             const char* sh = k[0]=='R' ? "S3" : "S7";
